@@ -572,7 +572,8 @@ def gen_id(rng):
         "null": lambda: None,
         "int": lambda: rng.choice([0, 1, -1, 42, rng.randint(-10**6, 10**6)]),
         "bigint": lambda: rng.choice([2**63, -2**63 - 1, 10**40, -10**40, 2**64 - 1]),
-        "string": lambda: rng.choice(["", "x", "1", "null", "é", "\U0001F600", "a b", "id-" + str(rng.randint(0, 99)), "\x00\x1f"]),
+        "string": lambda: rng.choice(["", "x", "1", "null", "é", "\U0001F600", "a b", "id-" + str(rng.randint(0, 99)), "\x00\x1f",
+                                      " x", "x ", "\t7", "7\n", "\u00a0x\u00a0", " "]),
         "float": lambda: rng.choice([1.5, 1.0, -0.0, 0.0, 1e22, 1e-7, Raw("1E2"), Raw("1e-400"), 2.5e-300, 1.7976931348623157e308]),
         "nonfinite": lambda: rng.choice([Raw("1e400"), Raw("-1e400"), Raw("NaN"), Raw("Infinity"), Raw("-Infinity")]),
         "bool": lambda: rng.random() < 0.5,
@@ -711,6 +712,31 @@ def tag_name_cases(jsonrpc):
     return out
 
 
+PADS = [" ", "  ", "\t", "\n", "\r\n", "\u00a0", "\u2003", "\u3000", "\x0b", "\x1f"]
+
+
+def whitespace_cases():
+    """String ids and method names padded with white space (spaces, tabs, newlines, NBSP and other
+    Unicode spaces): an id must be echoed with its padding, padded ids that would collide after
+    stripping must stay distinct within a batch, and a padded name of an existing method is not
+    that method."""
+    out = []
+    for pad in PADS:
+        for ident in ("x", "7", ""):
+            for padded in (pad + ident, ident + pad, pad + ident + pad):
+                out.append({"jsonrpc": "2.0", "id": padded, "method": "o.pub"})
+                out.append({"jsonrpc": "2.0", "id": padded, "method": "o.nope"})
+            out.append([{"jsonrpc": "2.0", "id": ident, "method": "o.count"}, {"jsonrpc": "2.0", "id": ident + pad, "method": "o.count"},
+                        {"jsonrpc": "2.0", "id": pad + ident, "method": "o.count"}, {"jsonrpc": "2.0", "id": pad + ident + pad, "method": "o.te"}])
+        for meth in ("o.pub", "o.count", "f", "a.b", "core.x.nargs", "o.helper", "o._priv"):
+            for padded in (pad + meth, meth + pad, pad + meth + pad, meth.replace(".", pad + ".", 1), meth.replace(".", "." + pad, 1)):
+                out.append({"jsonrpc": "2.0", "id": 1, "method": padded})
+                out.append({"jsonrpc": "2.0", "method": padded})
+        out.append({"jsonrpc": "2.0" + pad, "id": 1, "method": "o.pub"})
+        out.append({"jsonrpc": pad + "2.0", "id": 1, "method": "o.pub"})
+    return [(0, enc(r).encode("utf-8"), "whitespace") for r in out]
+
+
 def gen_bytes(rng):
     k = rng.weighted([("random", 2), ("mutated", 5), ("special", 2)])
     if k == "random":
@@ -776,7 +802,7 @@ def g_log(log):
 def wrapper_stage(chk, jsonrpc):
     quick = chk.tier == "quick"
     n_struct, n_json, n_bytes = (1400, 400, 700) if quick else (24000, 6000, 10000)
-    cases = load_corpus() + tag_name_cases(jsonrpc)
+    cases = load_corpus() + tag_name_cases(jsonrpc) + whitespace_cases()
     rng = chk.rng
     for _ in range(n_struct):
         v, dist = gen_structured(rng)
